@@ -242,6 +242,16 @@ func waitQuiesce(c *runner) quiet {
 					parked2, idle2 := allParked(nworkers)
 					in2, out2, _ := e.counts()
 					if parked2 && !idle2 && in2 == in1 && out2 == out1 {
+						// The loop keeps passing; `when` is rewritten by every pass (s.when = min.When()).
+						// Let one complete pass run after this point so that When() reflects the
+						// tree as it is now (e.g. after a Release in this state) and not the pass before.
+						it0 := scheduler.VerifLoopIters.Load()
+						for scheduler.VerifLoopIters.Load() < it0+2 {
+							if time.Now().After(deadline) {
+								return qStuck
+							}
+							runtime.Gosched()
+						}
 						return qSpinning
 					}
 				}
